@@ -666,6 +666,14 @@ func contiguousForBLAS(t Tensor, d DenseTensor) (Tensor, DenseTensor) {
 			return m, m
 		}
 	}
+	// the same holds for strided storage that is not a view any more: the Clone of a sliced view keeps the view's
+	// strides over its own copy of the window (it cannot be materialised), lazily transposed or not
+	if dd, ok := d.(*Dense); ok && !dd.IsView() && !dd.o.IsContiguous() {
+		m := recycledDense(dd.t, dd.Shape().Clone(), WithEngine(dd.e))
+		if _, err := copyDenseIter(m, dd, nil, nil); err == nil {
+			return m, m
+		}
+	}
 	return t, d
 }
 
